@@ -234,6 +234,41 @@ def run(prog, tier, res):
                 if opn != want:
                     ok = False
                     why = "clamp-operand: clamps `%s`, not the stationary-point expression `%s`" % (opn[:200], want[:120])
+        elif fconst(t) is not None:
+            # a constant return (the arms of a clamp written as an if / else-if ladder): in range iff |c| <= pi
+            cv = fconst(t)
+            ok = abs(cv) <= math.pi
+            why = "is the constant %r" % cv
+            res.oblige(ok, "all-returns")
+            if ok:
+                res.hit(R1)
+            else:
+                res.violate(R1, CLOSEST, "return:constant", "a value returned by the closest-point routine %s — it is not confined to [-pi, pi]" % why, b.where(bb))
+            continue
+        elif t[0] == "call" and is_uom(t[1], "get") and len(t[2]) == 1 and not (strip(t[2][0])[0] == "call" and strip(t[2][0])[1] == ABV):
+            # `x` returned as it is on the path where neither `x < -pi` nor `pi < x` held: the third arm of the clamp ladder
+            from .. import accept as _acc
+            from ..sym import atom_str as _as
+            sy_ = Sym(prog, an, slice_param=99)
+            ats_ = []
+            for (d_, rel_, vals_) in an.atoms_at(bb):
+                ats_ += sy_.atoms(d_, rel_, vals_)
+            gs_ = [abstract_phi(_as(a_), "E") for a_ in (_acc.simplify(ats_, sy_.sym_box) or [])]
+            xn = abstract_phi(sy_.name(t), "E")
+            pis = ("3.141592653589793", "4614256656552045848")
+            negs = ("neg(3.141592653589793)", "-3.141592653589793", "Neg::neg(4614256656552045848)", "neg(4614256656552045848)")
+            hi_g = [g for g in gs_ if any(g == "fcmp not Lt %s %s" % (p_, xn) for p_ in pis)]
+            lo_g = [g for g in gs_ if any(g == "fcmp not Lt %s %s" % (xn, n_) for n_ in negs)]
+            want = _acc.load_spec("c16.json")["clamp_operand"]
+            rest = sorted(g for g in gs_ if g not in hi_g and g not in lo_g)
+            ok = bool(hi_g) and bool(lo_g) and xn == want and rest == _acc.load_spec("c16.json")["return_guards"]["clamp"]
+            why = "ladder: returns `%s` under %s; a clamp written as a ladder must return the stationary-point expression exactly when it is neither below -pi nor above pi" % (xn[:120], gs_)
+            res.oblige(ok, "all-returns")
+            if ok:
+                res.hit(R1)
+            else:
+                res.violate(R1, CLOSEST, "return:ladder", "a value returned by the closest-point routine is not confined to [-pi, pi]: %s" % why[:600], b.where(bb))
+            continue
         elif t[0] == "call" and is_uom(t[1], "get") and len(t[2]) == 1:
             inner = strip(t[2][0])
             ok = inner[0] == "call" and inner[1] == ABV
